@@ -21,6 +21,8 @@ MCTag5q == {1, 4, 5}
 MCTag5 == 1..5
 MCTag4 == 1..4
 MCB4q == {0, 1, 3}
+MCB4qq == {0, 3}
+MCTag4qq == {1, 4}
 MCTag4q == {1, 3, 4}
 MCDepths == {0, 1, 2}
 MCDeepen == {3, 4}
